@@ -29,7 +29,13 @@ def make_adapters(case, fresh_names=True):
     from cutadapt.adapters import PrefixAdapter, SuffixAdapter
 
     cls = PrefixAdapter if case["prefix"] else SuffixAdapter
-    return [cls(s, max_errors=case["e"], indels=indel_of(case, i), name=f"a{i}") for i, s in enumerate(case["adapters"])]
+    return [cls(s, max_errors=e_of(case, i), indels=indel_of(case, i), name=f"a{i}") for i, s in enumerate(case["adapters"])]
+
+
+def e_of(case, i):
+    """e is one value for all adapters, or (adapters given with their own ;e=) one per adapter."""
+    v = case["e"]
+    return v[i] if isinstance(v, list) else v
 
 
 def indel_of(case, i):
@@ -127,7 +133,7 @@ def check_index(case, ctx):
                     perms = perms[:: len(perms) // 24][:24]
                 ref = None
                 for perm in perms:
-                    pc = dict(case, adapters=[seqs[j] for j in perm], indels=False)
+                    pc = dict(case, adapters=[seqs[j] for j in perm], indels=False, e=[e_of(case, j) for j in perm])
                     pa = make_adapters(pc)
                     for a_, j in zip(pa, perm):
                         a_.name = f"a{j}"
@@ -186,6 +192,14 @@ def index_case(draw):
     e = draw(st.sampled_from([0, 1, 2, 3, 0.1, 0.15, 0.2, 0.25, 0.34]))
     if e >= 1:
         e = min(e, min(len(s) for s in ads) - 1) or 0
+    if draw(st.integers(0, 4)) == 0:
+        # own tolerances, and now and then the same sequence twice with different ones (stricter or laxer first)
+        shortest = min(len(s) for s in ads)
+        if draw(st.booleans()) and len(ads) < 6:
+            ads.insert(draw(st.integers(0, len(ads))), draw(st.sampled_from(ads)))
+            if isinstance(indels, list):
+                indels = [draw(st.booleans()) for _ in ads]
+        e = [min(draw(st.sampled_from([0, 1, 2, 0.1, 0.2, 0.34])), max(0, shortest - 1)) for _ in ads]
     # reads
     src = draw(st.sampled_from(ads))
     mid = list(src)
@@ -288,10 +302,14 @@ def check_cli(case, ctx):
     prefix, indels = case["prefix"], case["indels"]
     args = []
     mixed = isinstance(indels, list)
+    own_e = isinstance(case["e"], list)
     for i, s in enumerate(case["adapters"]):
         p = ";noindels" if mixed and not indels[i] else ""
+        if own_e:
+            p += f";e={case['e'][i]}"
         args += ["-g", f"a{i}=^{s}{p}"] if prefix else ["-a", f"a{i}={s}${p}"]
-    args += ["-e", str(case["e"])]
+    if not own_e:
+        args += ["-e", str(case["e"])]
     if not mixed and not indels:
         args.append("--no-indels")
     recs = [(f"r{i}", s, "I" * len(s)) for i, s in enumerate(case["reads"])]
